@@ -558,7 +558,30 @@ impl ErasedList {
     /// Both `self` and `other` must have the same element type.
     ///
     pub unsafe fn concat(&self, other: &Self) -> Self {
-        let a = self.0.lock().unwrap();
+        #[cfg(roto_verif)]
+        crate::verif::sched::point(crate::verif::sched::Event::ConcatMiddle {
+            list: Arc::as_ptr(&other.0) as usize,
+        });
+
+        // Concatenating a list with itself: there is only one mutex to
+        // lock.
+        if Arc::ptr_eq(&self.0, &other.0) {
+            let a = self.0.lock().unwrap();
+
+            let new = Self::new(a.vtable.clone());
+            let mut raw = new.0.lock().unwrap();
+
+            // SAFETY: we extend with elements of the same list
+            unsafe { raw.extend(&a) };
+            unsafe { raw.extend(&a) };
+
+            drop(raw);
+            return new;
+        }
+
+        // Both lists stay locked until the result is complete, so that it
+        // is the concatenation of the two lists as they were at one moment.
+        let (a, b) = lock_both(&self.0, &other.0);
 
         let new = Self::new(a.vtable.clone());
         let mut raw = new.0.lock().unwrap();
@@ -566,21 +589,8 @@ impl ErasedList {
         // SAFETY: self and other have the same element type
         unsafe { raw.extend(&a) };
 
-        // This drop is important in the case that self == other
-        // We need to ensure we don't lock the mutex twice
-        drop(a);
-
-        #[cfg(roto_verif)]
-        crate::verif::sched::point(crate::verif::sched::Event::ConcatMiddle {
-            list: Arc::as_ptr(&other.0) as usize,
-        });
-
-        let b = other.0.lock().unwrap();
-
         // SAFETY: raw and b have the same element type
         unsafe { raw.extend(&b) };
-
-        drop(b);
 
         drop(raw);
 
